@@ -4,13 +4,20 @@
 Require Extraction.
 Require ExtrOcamlBasic.
 From Coq Require Import ZArith String List.
-From LW Require Import Gen.Consts Base.Bytes Base.Sweep Model.Epoch Model.TagName Spec.Numbers Model.TagIter Spec.TagSpec Model.Tags.
+From LW Require Import Gen.Consts Base.Bytes Base.Sweep Model.Epoch Model.TagName Spec.Numbers Model.TagIter Spec.TagSpec Model.Tags Model.CRC Spec.CRCSpec Model.SecStr Spec.SecStrSpec Gen.Tables Model.Radiotap Model.Frame Spec.FrameSpec Model.Macro Spec.CapSpec.
 Extraction Language OCaml.
 Set Extraction KeepSingleton.
 Extraction "model.ml"
-  Z.add Z.mul Z.sub Z.div Z.modulo Z.eqb Z.ltb Z.leb Z.of_nat Z.to_nat Z.opp
+  Z.add Z.mul Z.sub Z.div Z.modulo Z.eqb Z.ltb Z.leb Z.of_nat Z.to_nat Z.opp Z.testbit
   le_enc le_dec rd_bytes rd_strict
   epoch get_tag_name spec_tag_name all_mismatches all_dups kinds covered
   tag_init tag_next cur_elem iterate spec_iterate elements reported
   tags_empty quick_add_tag remove_tag check_tag set_ssid set_channel dump_tag step enc spec_step
-  c_TAG_SSID c_TAG_DS_PARAMETER.
+  c_TAG_SSID c_TAG_DS_PARAMETER
+  crc32 calculate_fcs frame_verify crc32_list crc32_spec crc32_tbl fcs_octets
+  describe cstr set_names spec_generations spec_group spec_pairwise spec_akm
+  sec_table_security_type sec_none_security_type sec_table_group_ciphers sec_none_group_ciphers
+  sec_table_pairwise_ciphers sec_none_pairwise_ciphers sec_table_auth_key_suites sec_none_auth_key_suites
+  parse_radiotap_info parse_radiotap_rssi rt_init rt_next
+  get_wifi_frame parse_data spec_classify spec_data
+  check_cap_eval lookup_enum shapes ieee_cap_bits.
